@@ -2,7 +2,8 @@
    absolute path other than "/", and path.Join of such a path with relative paths made of
    plain components. *)
 From LC Require Import Lib.Bytes Lib.Lex Lib.Fields Lib.PathM Gen.Consts
-  Model.FsTree Model.Layers Proofs.PathP Proofs.C16FsP.
+  Model.MountInfo Model.FsTree Model.Kernel Model.Layers Cases.Verdict Cases.LC Cases.C16
+  Proofs.PathP Proofs.C16FsP.
 Close Scope string_scope.
 Open Scope list_scope.
 
@@ -266,3 +267,38 @@ Proof.
   rewrite HL, <- !app_assoc. apply under_slcat; try assumption. discriminate.
 Qed.
 End Cfg.
+
+(* the export links of a layer *)
+Section CfgE.
+Variable c : cfgT.
+Variable csE : list bytes.
+Hypothesis csE_ne : csE <> [].
+Hypothesis csE_plain : Forall plain csE.
+Hypothesis HE : c_exports c = slcat csE.
+Hypothesis Hx : rel_ok (c_exp_binpkg c) = true.
+Hypothesis Hy : rel_ok (c_exp_gen c) = true.
+
+Lemma pkg_link_nf n : legal_name n = true -> n <> [] ->
+  C16.pkg_link c n = slcat (csE ++ psplit (c_exp_binpkg c) ++ [n]).
+Proof.
+  intros Hl Hne. unfold C16.pkg_link. rewrite HE.
+  destruct (plain_rel_ok n (legal_plain n Hl Hne)) as [Hr Hs].
+  rewrite pathjoin_rel; [|assumption|assumption|constructor; [exact Hx|constructor; [exact Hr|constructor]]].
+  cbn [flat_map]. rewrite Hs, app_nil_r. reflexivity.
+Qed.
+Lemma gen_link_nf n : legal_name n = true -> n <> [] ->
+  C16.gen_link c n = slcat (csE ++ psplit (c_exp_gen c) ++ [n]).
+Proof.
+  intros Hl Hne. unfold C16.gen_link. rewrite HE.
+  destruct (plain_rel_ok n (legal_plain n Hl Hne)) as [Hr Hs].
+  rewrite pathjoin_rel; [|assumption|assumption|constructor; [exact Hy|constructor; [exact Hr|constructor]]].
+  cbn [flat_map]. rewrite Hs, app_nil_r. reflexivity.
+Qed.
+
+Lemma HP_links_proof n : legal_name n = true -> n <> [] ->
+  under (c_exports c) (C16.pkg_link c n) = true /\ under (c_exports c) (C16.gen_link c n) = true.
+Proof.
+  intros Hl Hne. rewrite pkg_link_nf, gen_link_nf by assumption. rewrite HE.
+  split; apply under_slcat; try assumption; intros H; apply app_eq_nil in H as [_ H]; discriminate H.
+Qed.
+End CfgE.
